@@ -2202,7 +2202,7 @@ LEGS = [
              "authenticate(other); non-trivial = protect succeeded and the "
              "other password mismatches."),
     Leg("two_readers", run=run_two_readers,
-        gen=lambda tier: gen_two_readers(), quick=120, thorough=3000,
+        gen=lambda tier: gen_two_readers(), quick=120, thorough=1200,
         shards_quick=8, shards_thorough=16, nt_floor=0.5,
         rule="two readers in one process, each with its own simulated tag "
              "(FeliCa Lite / Lite-S, same or different card key, or NTAG21x) "
